@@ -410,6 +410,147 @@ def c05(line, be, wf=True):
 
 HANDLERS.update({'rt': rt, 'c05': c05})
 
+# ---------------------------------------------------------------------------------------------------------------
+# C01 / C04: confinement of the safe and full loaders, observed with audit + profile hooks
+# ---------------------------------------------------------------------------------------------------------------
+_AUDIT = {'on': False, 'imports': []}
+def _audit(ev, args):
+    if _AUDIT['on'] and ev == 'import': _AUDIT['imports'].append(str(args[0]))
+_AUDIT_INSTALLED = [False]
+CORE12 = ['tag:yaml.org,2002:' + x for x in ('null', 'bool', 'int', 'float', 'binary', 'timestamp', 'omap', 'pairs', 'set', 'str', 'seq', 'map')]
+ALLOWED_PY = ('<frozen abc>', '<frozen _collections_abc>', '<frozen codecs>', '/re/', '/base64.py', '/datetime.py', '/_pydatetime.py', '/codecs.py', '/encodings/', '/enum.py', '/functools.py', '/types.py', '/collections/', '/_strptime.py', '/copyreg.py', '/binascii')
+ALLOWED_C_MODULES = {'builtins', '_sre', 're', 'binascii', 'base64', 'datetime', '_datetime', '_codecs', 'codecs', '_struct', 'sys', 'time', 'itertools', '_collections', 'collections', '_functools', '_operator', '_abc', 'math', '_thread', '_weakref', 'gc', 'yaml._yaml', '_yaml', 'unicodedata', '_string', 'atexit', 'errno', '_locale', '_io', 'io', 'types', 'enum', '_warnings', 'warnings', 'array', '_bisect', '_heapq', '_random', '_sha2', 'zlib', '_stat'}
+FORBIDDEN_BUILTINS = {'__import__', 'eval', 'exec', 'compile', 'open', 'setattr', 'delattr', 'input', 'breakpoint', 'globals', 'locals', 'vars'}
+
+def _confined_load(text, loader_name, allow_getattr):
+    import yaml, types as _t
+    if not _AUDIT_INSTALLED[0]: sys.addaudithook(_audit); _AUDIT_INSTALLED[0] = True
+    L = getattr(yaml, loader_name, None)
+    if L is None: return None
+    yaml_dir = os.path.dirname(yaml.__file__)
+    calls = []
+    def prof(frame, ev, arg):
+        if ev == 'call':
+            fn = frame.f_code.co_filename
+            if fn.startswith(yaml_dir) or fn.startswith('<frozen') and False: return
+            if any(a in fn for a in ALLOWED_PY): return
+            calls.append('python call into %s:%s' % (fn, frame.f_code.co_name))
+        elif ev == 'c_call':
+            owner = getattr(arg, '__self__', None)
+            name = getattr(arg, '__name__', '?')
+            if isinstance(owner, _t.ModuleType):
+                if owner.__name__ not in ALLOWED_C_MODULES: calls.append('C call %s.%s' % (owner.__name__, name))
+                elif owner.__name__ == 'builtins' and (name in FORBIDDEN_BUILTINS or (name == 'getattr' and not allow_getattr)): calls.append('builtin %s()' % name)
+    before = set(sys.modules)
+    _AUDIT['imports'] = []; _AUDIT['on'] = True
+    docs = None; exc = None
+    sys.setprofile(prof)
+    try:
+        docs = list(yaml.load_all(text, Loader=L))
+    except BaseException as e:
+        exc = e
+    finally:
+        sys.setprofile(None); _AUDIT['on'] = False
+    new_modules = sorted(set(sys.modules) - before)
+    return docs, exc, calls, list(_AUDIT['imports']), new_modules
+import os
+
+def _node_tags(text):
+    """tags of all nodes of all documents as composed by SafeLoader (the composer/resolver are not what C01 is about)"""
+    import yaml
+    tags = set(); seen = set()
+    def walk(n):
+        if id(n) in seen: return
+        seen.add(id(n)); tags.add(n.tag)
+        if isinstance(n, yaml.SequenceNode):
+            for x in n.value: walk(x)
+        elif isinstance(n, yaml.MappingNode):
+            for k, v in n.value: walk(k); walk(v)
+    try:
+        for n in yaml.compose_all(text, Loader=yaml.SafeLoader):
+            if n is not None: walk(n)
+    except Exception: return None
+    return tags
+
+def c01(text, loader_name):
+    import yaml
+    from tools.values import show
+    r = _confined_load(text, loader_name, allow_getattr=True)     # hasattr/getattr on library objects is used by the loader itself; named-object access shows up as calls / types
+    if r is None: return dict(bad=[], outcome='no_class')
+    docs, exc, calls, imports, new_modules = r
+    bad = []
+    for c in calls[:3]: bad.append(dict(kind='foreign_call', what='%s: %s while loading' % (loader_name, c), loader=loader_name))
+    if imports or new_modules: bad.append(dict(kind='import', what='%s: import of %s during the load' % (loader_name, (imports + new_modules)[:3]), loader=loader_name))
+    if exc is not None:
+        if isinstance(exc, yaml.YAMLError): return dict(bad=bad, outcome=type(exc).__name__)
+        if isinstance(exc, RecursionError): return dict(bad=bad, outcome='RecursionError')
+        bad.append(dict(kind='non_yaml_exception', what='%s raised %s: %s' % (loader_name, type(exc).__name__, str(exc)[:80]), exc=type(exc).__name__, loader=loader_name))
+        return dict(bad=bad, outcome='crash')
+    for d in docs:
+        s = show(d)
+        if '?' in s.replace('S', '') and ('=?' in s or s.startswith('R0=?')) or 'TUP(' in s or '=C(' in s:
+            bad.append(dict(kind='non_plain_object', what='%s returned an object outside the plain-data universe: %s' % (loader_name, s[:160]), loader=loader_name)); break
+    if 'Base' not in loader_name:
+        tags = _node_tags(text)
+        if tags is not None:
+            foreign = [t for t in tags if t not in CORE12 and t not in ('tag:yaml.org,2002:merge', 'tag:yaml.org,2002:value')]
+            if foreign: bad.append(dict(kind='unknown_tag_accepted', what='%s loaded a document carrying the non-core tag %r' % (loader_name, foreign[0]), loader=loader_name))
+    return dict(bad=bad, outcome='ok')
+
+def c04(text, loader_name, named):
+    """FullLoader / CFullLoader: no import, no call into code named by the document, result universe = plain + tuple + complex +
+    attributes of already-imported modules named by python/name tags (`named` = dotted names occurring in the document)"""
+    import yaml, types as _t
+    from tools.values import show
+    allowed_ids = set()
+    for nm in named:
+        mod, _, attr = nm.rpartition('.')
+        if not mod: mod, attr = 'builtins', nm
+        m = sys.modules.get(mod)
+        if m is not None and hasattr(m, attr): allowed_ids.add(id(getattr(m, attr)))
+    r = _confined_load(text, loader_name, allow_getattr=True)
+    if r is None: return dict(bad=[], outcome='no_class')
+    docs, exc, calls, imports, new_modules = r
+    bad = []
+    for c in calls[:3]: bad.append(dict(kind='foreign_call', what='%s: %s while loading' % (loader_name, c), loader=loader_name))
+    if imports or new_modules: bad.append(dict(kind='import', what='%s: import of %s during the load' % (loader_name, (imports + new_modules)[:3]), loader=loader_name))
+    if exc is not None:
+        if isinstance(exc, yaml.YAMLError): return dict(bad=bad, outcome=type(exc).__name__)
+        if isinstance(exc, RecursionError): return dict(bad=bad, outcome='RecursionError')
+        bad.append(dict(kind='non_yaml_exception', what='%s raised %s: %s' % (loader_name, type(exc).__name__, str(exc)[:80]), exc=type(exc).__name__, loader=loader_name))
+        return dict(bad=bad, outcome='crash')
+    import datetime
+    plain = (type(None), bool, int, float, str, bytes, datetime.date, datetime.datetime, complex)
+    seen = set()
+    def walk(o):
+        if type(o) in plain: return None
+        if id(o) in seen: return None
+        seen.add(id(o))
+        if type(o) in (list, tuple, set):
+            for x in o:
+                r = walk(x)
+                if r: return r
+            return None
+        if type(o) is dict:
+            for k, v in o.items():
+                r = walk(k) or walk(v)
+                if r: return r
+            return None
+        if id(o) in allowed_ids: return None
+        return '%s.%s' % (type(o).__module__, type(o).__name__)
+    for d in docs:
+        w = walk(d)
+        if w: bad.append(dict(kind='foreign_object', what='%s returned an object of type %s that is not an attribute of an already-imported module named by the document' % (loader_name, w), loader=loader_name)); break
+    # object-construction tags must have been rejected
+    import re as _re
+    if _re.search(r'python/(object|module)[:/]', text) or _re.search(r'!!python/(object|module)', text):
+        tags = _node_tags(text.replace('!!python/', '!<tag:yaml.org,2002:python/') if False else text)
+        if tags is not None and any(t.startswith(('tag:yaml.org,2002:python/object', 'tag:yaml.org,2002:python/module')) for t in tags):
+            bad.append(dict(kind='object_tag_accepted', what='%s loaded a document carrying an object-construction tag' % loader_name, loader=loader_name))
+    return dict(bad=bad, outcome='ok')
+
+HANDLERS.update({'c01': c01, 'c04': c04})
+
 def handle(case):
     return HANDLERS[case[0]](*case[1:])
 
